@@ -56,7 +56,8 @@ def finishSection (out : IO.FS.Stream) (name : String) (s : State) (mism : List 
   out.putStrLn s!"--- {name}"
   let n := s.threads.length
   let s := (List.range n).foldl runSilent s
-  for m in mism do out.putStrLn s!"mismatch {m}"
+  for m in mism do
+    if m.startsWith "c11bad" then out.putStrLn m else out.putStrLn s!"mismatch {m}"
   for t in List.range n do
     match getT s t with
     | some th => out.putStrLn (s!"rets {t} : " ++ " ".intercalate (th.rets.map showRet)).trimAsciiEnd.toString
